@@ -170,6 +170,10 @@ class PGen:
             if x not in ctx["vars"]:
                 ctx["vars"].append(x)
             return {"s": "decl", "x": x, "id": self.fresh()}
+        if "redecl" in self.feats and ctx["local"] and r.random() < 0.12:
+            # partial redeclaration: 'x, n := ...' where x was declared in THIS block assigns to x (Go spec, short variable
+            # declarations); if the rewriter has moved the statement into a function literal it declares a new x (finding F24)
+            return {"s": "redecl", "x": r.choice(ctx["local"]), "id": self.fresh()}
         x = r.choice(ctx["vars"])
         if k < 0.55:
             return {"s": "inc", "x": x}
@@ -329,9 +333,18 @@ def known_shapes(stmts):
         # switch_thunk: None when the innermost breakable is not a switch; else True/False whether
         #               this statement list already runs inside a callback of that switch's case body
         yielded = False
+        declared = {}      # name -> were the statements after its declaration in this list moved into a callback?
         for idx, s in enumerate(ss):
             k = s["s"]
             last = idx == len(ss) - 1
+            if k == "redecl" and declared.get(s["x"]):
+                found.add("F24")
+            if k in ("decl", "redecl"):
+                declared[s["x"]] = False
+            elif has_yield([s]):
+                # everything after a yielding statement of a list is emitted inside a function literal
+                for x in declared:
+                    declared[x] = True
             in_thunk = (switch_thunk is not None) and (switch_thunk or yielded)
             if k == "continue" and loop_post_yield:
                 found.add("F1")
@@ -476,6 +489,9 @@ class Render:
         elif k == "decl":
             e(ind, "%s := tr.I(%d)" % (s["x"], s["id"]))
             e(ind, "_ = %s" % s["x"])
+        elif k == "redecl":
+            e(ind, "%s, n%d := tr.I(%d), 0" % (s["x"], s["id"], s["id"]))
+            e(ind, "_ = n%d" % s["id"])
         elif k == "inc":
             e(ind, "%s++" % s["x"])
         elif k == "use":
